@@ -71,3 +71,7 @@ chk("C14","model_checking",
  "all sequences of length d over {STORE in the same millisecond / 1 ms later / next second, FLUSH, COMPACT, RESTART, SHOW+QUERY} with REMEMBER at every position, followed by two SHOWs and a second REMEMBER, for several remembered queries and 1-2 shards, on the real engine with an injected clock; each SHOW must equal the live query issued right after it, each event once",
  "clock owned by interposing clock_gettime; exact-case known findings in known/C14.*.json",
  "exhaustive bounded history enumeration of the real implementation with a differential oracle (SHOW vs live QUERY)","histx","DESIGN.md §3 C14")
+chk("C13","model_checking",
+ "explicit-state BFS over the authorisation state of a target user (role, read/write grants, key active, session token) under GRANT / REVOKE / REVOKE KEY / AUTH / session expiry, for nine roots (six roles, three special user ids); every state is realised on the real engine through the TCP listener's own authentication gate + parse + dispatch and probed with 17 command kinds x 10 authentication forms / credential validities; executed => authenticated and permitted",
+ "TCP gate driven through hook H7 (HTTP / WebSocket gates not driven); one-directional oracle; reference matrix written from the statement",
+ "explicit-state search over a reference authorisation machine with every state replayed against the real gate and dispatcher","authx","DESIGN.md §3 C13")
